@@ -1691,8 +1691,7 @@ impl XmlDocument {
         }
 
         if let Some(d) = value.prolog.declaration_doc.as_ref() {
-            let doc_type = XmlDocumentTypeDeclaration::node(d, &context);
-            document.borrow_mut().push_child(doc_type?);
+            XmlDocumentTypeDeclaration::node(d, &context)?;
         }
 
         for t in value.prolog.tails.as_slice() {
@@ -1899,6 +1898,13 @@ impl XmlDocumentTypeDeclaration {
         });
         let declaration_id = declaration.borrow().id();
 
+        // WFC: Entity Declared - a default value in an attribute-list declaration may refer to the
+        // general entities declared before it, so the declaration has to be in the document
+        // (where `Context::entity` looks) while its internal subset is built.
+        let node: Rc<XmlItem> = Rc::new(declaration.clone().into());
+        declaration.borrow().context.add_item(&node);
+        context.document().borrow().push_child(node.clone());
+
         for subset in &value.internal_subset {
             match subset {
                 parser::InternalSubset::Markup(v) => match v {
@@ -1943,8 +1949,6 @@ impl XmlDocumentTypeDeclaration {
             }
         }
 
-        let node: Rc<XmlItem> = Rc::new(declaration.clone().into());
-        declaration.borrow().context.add_item(&node);
         Ok(node)
     }
 
